@@ -54,6 +54,6 @@ P_C12_Machine == LET run == RunMachine(vs, 1, DInit) IN
                  /\ (Parenthesised => [j \in 1..Len(vs) |-> run[j].implOut] = Consts(vs))
 
 CaseRec == [vs |-> vs, attrs |-> attrs, repr |-> DocReprTy(attrs), discs |-> Discs(vs),
-            consts |-> Consts(vs)]
+            consts |-> Consts(vs), errTemplate |-> DocErrTemplate]
 Emit == EmitCases /\ Valid => PrintT(<<"CASE", ToJson(CaseRec)>>)
 =============================================================================
